@@ -114,7 +114,7 @@ func (s *Server) aofshrink() {
 								if !f.Value().IsZero() {
 									values = append(values, "field")
 									values = append(values, f.Name())
-									values = append(values, f.Value().JSON())
+									values = append(values, shrinkFieldValue(f.Value()))
 								}
 								return true
 							})
@@ -337,4 +337,14 @@ func (s *Server) aofshrink() {
 		log.Errorf("aof shrink failed: %v", err)
 		return
 	}
+}
+
+// shrinkFieldValue returns the text that reads back (field.ValueOf) as
+// exactly this value: the stored text itself where that is unambiguous, which
+// also keeps bytes that are not valid UTF-8, and the JSON form otherwise.
+func shrinkFieldValue(v field.Value) string {
+	if back := field.ValueOf(v.Data()); back.Kind() == v.Kind() && back.Data() == v.Data() {
+		return v.Data()
+	}
+	return v.JSON()
 }
